@@ -3,6 +3,7 @@ package interp
 // Symbolic-aware replacements for assembly-backed stdlib helpers.
 
 import (
+	"golang.org/x/tools/go/ssa"
 	"go/token"
 	"go/types"
 )
@@ -186,4 +187,40 @@ func init() {
 	}
 	externals["github.com/wrgl/wrgl/pkg/mem.GetTotalMem"] = memStub("mem.total")
 	externals["github.com/wrgl/wrgl/pkg/mem.GetAvailMem"] = memStub("mem.avail")
+}
+
+func init() {
+	externals["internal/abi.NoEscape"] = func(fr *frame, a []value) value { return a[0] }
+	externals["(*strings.Builder).copyCheck"] = func(fr *frame, a []value) value { return nil }
+	externals["(*strings.Builder).String"] = func(fr *frame, a []value) value {
+		p := a[0].(*value)
+		buf, _ := (*p).(structure)[1].([]value)
+		return mkStr(buf)
+	}
+}
+
+func init() {
+	nop := func(fr *frame, a []value) value { return nil }
+	for _, m := range []string{"Printf", "Println", "Print", "PrintErr", "PrintErrf", "PrintErrln"} {
+		externals["(*github.com/spf13/cobra.Command)."+m] = nop
+	}
+	// sync.Pool without per-P caches: Get calls New, Put drops the value
+	externals["(*sync.Pool).Put"] = nop
+	externals["(*sync.Pool).Get"] = func(fr *frame, a []value) value {
+		p := a[0].(*value)
+		st := (*p).(structure)
+		pool := fr.i.prog.ImportedPackage("sync").Type("Pool").Object().Type().Underlying().(*types.Struct)
+		for k := 0; k < pool.NumFields(); k++ {
+			if pool.Field(k).Name() == "New" {
+				if st[k] == nil {
+					return iface{}
+				}
+				if fn, ok := st[k].(*ssa.Function); ok && fn == nil {
+					return iface{}
+				}
+				return call(fr.i, fr, 0, st[k], nil)
+			}
+		}
+		return iface{}
+	}
 }
